@@ -87,15 +87,14 @@ def _run_cargo(cfg, out_dir, target_dir, repo, extra_args=(), crates="rsactor"):
     env["RUSTFLAGS"] = "-Zmir-opt-level=0 -Awarnings"
     env["RUSTC_WORKSPACE_WRAPPER"] = DRIVER
     env["CARGO_TARGET_DIR"] = target_dir
-    # cargo replays cached results on a warm target dir: force the workspace members through
-    fp = os.path.join(target_dir, "debug", ".fingerprint")
-    if os.path.isdir(fp):
-        for d in os.listdir(fp):
-            if d.startswith("rsactor-") and not d.startswith("rsactor-derive"):
-                shutil.rmtree(os.path.join(fp, d), ignore_errors=True)
-    cmd = ["cargo", "+nightly", "check", "--offline", "-q"] + list(extra_args)
+    # cargo replays cached results on a warm target dir and would skip the wrapper: a per-run
+    # `--cfg` nonce (part of the unit's fingerprint) forces exactly the analysed crate through it.
+    # (Nothing is deleted from the shared target dir, so concurrent runs only wait on cargo's lock.)
+    nonce = "%d_%d" % (os.getpid(), int(time.time() * 1000))
+    cmd = ["cargo", "+nightly", "rustc", "--offline", "-q", "--profile", "check"] + list(extra_args)
     if cfg:
         cmd += ["--features", ",".join(cfg)]
+    cmd += ["--", "--cfg", "rsav_nonce=\"%s\"" % nonce]
     r = subprocess.run(cmd, cwd=repo, env=env, stdout=subprocess.PIPE, stderr=subprocess.STDOUT, text=True)
     return r
 
@@ -136,15 +135,16 @@ def extract(configs, repo=REPO, log=None):
 
 
 def _gc(keep):
-    """Keep the cache small: drop fact sets of older tree hashes (keep the 3 newest)."""
+    """Keep the cache small: drop fact sets of older tree hashes (keep the 6 newest and anything younger than 15 min)."""
     root = os.path.join(CACHE, "facts")
     try:
         ds = sorted((os.path.getmtime(os.path.join(root, d)), d) for d in os.listdir(root))
     except OSError:
         return
-    for _, d in ds[:-3]:
+    now = time.time()
+    for mt, d in ds[:-6]:
         p = os.path.join(root, d)
-        if p != keep:
+        if p != keep and now - mt > 900:     # never remove what a concurrent run may be using
             shutil.rmtree(p, ignore_errors=True)
 
 
